@@ -472,6 +472,22 @@ fn stream_generate(tier: Tier, rng: &mut SplitMix64, out: &mut dyn Write) {
             emit_generate(out, &units, chk);
         }
     }
+    // names that end in dots / spaces are stored verbatim, by every build (no rng use: later cases stay what they were)
+    for name in ["report.", "notes ", "v1.2..", "a. .", ".", "..", " ", "  ", "x  ", "Trailing Dot.txt.", "abcdefghijkl.", "abcdefghijklm.", "abcdefghijklm ", "abcdefghijklmn. ", "abcdefghijklmnopqrstuvwxy.", "abcdefghijklmnopqrstuvwxyz "] {
+        let units: Vec<u16> = name.encode_utf16().collect();
+        emit_generate(out, &units, 0x5A);
+    }
+    for len in [1usize, 12, 13, 14, 25, 26, 27, 254, 255] {
+        for tail in [0x2E_u16, 0x20] {
+            let mut units: Vec<u16> = (0..len).map(|i| 0x61 + (i % 26) as u16).collect();
+            units[len - 1] = tail;
+            emit_generate(out, &units, 3);
+            if len > 1 {
+                units[len - 2] = if tail == 0x2E { 0x20 } else { 0x2E };
+                emit_generate(out, &units, 4);
+            }
+        }
+    }
     // one over-long input per build: the fixed buffer indexes out of range (model predicts the panic), the Vec grows
     let units: Vec<u16> = (0..261).map(|i| 0x41 + (i % 26) as u16).collect();
     emit_generate(out, &units, 7);
@@ -1139,6 +1155,9 @@ fn stream_dirops(tier: Tier, rng: &mut SplitMix64, img: &mut Img, out: &mut dyn 
                 n
             } else if rng.chance(1, 5) {
                 format!("NEW{:04}.TXT", k % 10000)
+            } else if k % 11 == 5 {
+                // a name that ends in dots / spaces (chosen without the random stream)
+                format!("trail{}{}", k % 1000, ["." , " ", "..", ". .", " .", "  "][(k / 11) % 6])
             } else {
                 (0..len).map(|i| if i % 7 == 3 { 'é' } else { (b'g' + ((i + k) % 13) as u8) as char }).collect()
             };
